@@ -138,7 +138,8 @@ def parse (E : Env) (cls0 : Option (Bytes × Nat)) (uri : Bytes) : R Uri := do
   if !uri.all isPrintable then throw .invalidURI
   let (uri, fragment) := match splitOnce [0x23] uri with | some (a, b) => (a, b) | none => (uri, [])
   let (uri, query) := match splitOnce [0x3F] uri with | some (a, b) => (a, b) | none => (uri, [])
-  let (scheme, authExists, uri) := match rsplitOnce [0x3A, 0x2F, 0x2F] uri with
+  -- `uri.partition(b'://')` (first occurrence, since the F32 repair)
+  let (scheme, authExists, uri) := match splitOnce [0x3A, 0x2F, 0x2F] uri with
     | some (a, b) => (a, true, b)
     | none => ([], false, uri)
   let (authExists, uri) := if !authExists && startsWith uri [0x2F, 0x2F] then (true, uri.drop 2) else (authExists, uri)
@@ -229,7 +230,7 @@ def composeAuthority (P : Sets) (u : Uri) : R Bytes :=
   if u.host.isEmpty then .ok []
   else do
     let ui := if u.username.isEmpty then [] else
-      Percent.quote P.userinfo u.username ++
+      Percent.quote (fun b => P.userinfo b && b != 0x3A) u.username ++      -- user name: USERINFO without ':' (F21 repair)
         (if u.password.isEmpty then [] else 0x3A :: Percent.quote P.userinfo u.password) ++ [0x40]
     let h ← idnaEncodeAscii u.host
     let port := match u.portProp with
